@@ -37,6 +37,9 @@ type Knobs struct {
 	OddInts    bool // integer literals spelled with leading zeros or a plus sign
 }
 
+// deepTier is set by the worker for the thorough tier: bigger programs.
+var deepTier bool
+
 func DrawKnobs(r *Rng) Knobs {
 	k := Knobs{
 		MaxDepth:  r.Range(2, 6),
@@ -67,6 +70,9 @@ func DrawKnobs(r *Rng) Knobs {
 	}
 	if r.P(0.07) { // occasionally a big, bushy program: operand stacks beyond 16 slots
 		k.MaxDepth, k.MaxFan, k.PLeaf, k.Budget = 7, 6, 0.05, 500
+		if deepTier {
+			k.MaxDepth, k.Budget = 9, 1500
+		}
 	}
 	return k
 }
